@@ -1,22 +1,51 @@
 """Per-property configuration of the runner (budgets, evidence texts)."""
 
 PURE_ASSUME = [
-    "reference evaluator (arbitrary-precision, written from the documentation) is correct",
-    "checked build = opt-level 1 with overflow checks and debug assertions; release pass (thorough) = opt-level 3 without",
+    "the reference evaluator (arbitrary-precision / independently accumulated, written from the documentation) is correct",
+    "checked build = opt-level 1 with overflow checks and debug assertions; the thorough tier repeats the workload on a release build (opt-level 3, wrapping arithmetic)",
 ]
 
-CHECKS = {
-    "C26": {
-        "level": "exploration",
-        "shards_quick": 8, "budget_quick": 10,
-        "shards_thorough": 16, "budget_thorough": 120,
-        "release_pass": True, "miri": True,
-        "technique": "differential monitor: real codec vs big-integer reference decoder on generated inputs; overflow-checked and release builds; Miri",
-        "level_text": "Exploration: tens of millions of generated values and byte strings per run, exhaustive on byte strings of length <= 2 and on the 19-byte boundary; every decode compared with an independent arbitrary-precision decoder. Not a proof over all u128 / all byte strings.",
-        "rule": "u128 values (all 2^k±1, random, log-uniform, boundary) round-tripped; byte strings (all of length<=2, the 19-byte boundary with every last byte, random with high continuation density) decoded and compared with a big-integer reference LEB128 decoder. distinct = (outcome class, length, bit-length) tuples.",
-        "assumptions": PURE_ASSUME,
-        "floors": {"evaluations": 100000, "decode_ok": 1000, "decode_err_Overflow": 10, "decode_err_Overlong": 10, "decode_err_Unterminated": 10},
-    },
-}
+CHECKS = {}
+
+
+def pure(pid, technique, level_text, rule, floors, shards_quick=8, budget_quick=12, budget_thorough=150, miri=True, release=True, **kw):
+    CHECKS[pid] = dict(
+        level="exploration", technique=technique, level_text=level_text, rule=rule, floors=floors,
+        shards_quick=shards_quick, budget_quick=budget_quick, shards_thorough=kw.pop("shards_thorough", 16),
+        budget_thorough=budget_thorough, release_pass=release, miri=miri, assumptions=PURE_ASSUME, **kw)
+
+
+pure("C26",
+     "differential monitor: real varint codec vs big-integer reference decoder on generated inputs; overflow-checked and release builds; Miri",
+     "Exploration: tens of millions of generated values and byte strings per run, exhaustive on byte strings of length <= 2 and on the 19-byte boundary; every decode compared with an independent arbitrary-precision decoder. Not a proof over all u128 / all byte strings.",
+     "u128 values (all 2^k±1, random, log-uniform, boundary) round-tripped; byte strings (all of length<=2, the 19-byte boundary with every last byte, random with high continuation density) decoded and compared with a big-integer reference LEB128 decoder. distinct = (outcome class, length, bit-length) tuples.",
+     {"evaluations": 100000, "decode_ok": 1000, "decode_err_Overflow": 10, "decode_err_Overlong": 10, "decode_err_Unterminated": 10})
+
+pure("C29",
+     "exhaustive sweep over heights + random sats against an independently accumulated subsidy schedule and attribute definitions; overflow-checked and release builds; Miri sample",
+     "Exploration, exhaustive over the 6,930,000 subsidy-bearing heights when the sweep completes (counter height_sweeps_completed = number of shards; heights_checked = 6930000): first/last (and second) sat of every height, 1000+ heights beyond, the rarity census, plus random interior sats. Interior sats are sampled, not enumerated.",
+     "every height h<6,930,000: starting_sat/subsidy vs running sum of 50e8>>(h/210000); height/third/epoch/cycle/period/degree/decimal/rarity/charms/common of its boundary sats vs definitions; rarity census vs Rarity::supply(); random sats located through an independent epoch table. distinct = boundary heights and (epoch, offset==0, round) classes of random sats.",
+     {"evaluations": 1000000, "heights_checked": 500000},
+     shards_quick=16, budget_quick=25, exhaustive_if=("heights_checked", 6930000))
+
+pure("C30",
+     "print→parse round-trip monitor over every height's boundary sats and random sats, printed form compared with the documented notation; checked and release builds; Miri sample",
+     "Exploration, exhaustive over per-height boundary sats when the sweep completes; interior sats sampled (the percentile notation's double rounding is only sampled).",
+     "for each sat: integer, decimal, degree, percentile and name notations printed by ord are parsed back with Sat::from_str and must give the same sat; integer/decimal/degree/name text also compared with the documented form. Sats: first and last sat of every subsidy-bearing height (second in thorough), random sats incl. epoch/block boundaries and the top of the supply.",
+     {"evaluations": 1000000, "heights_checked": 500000},
+     shards_quick=16, budget_quick=25, exhaustive_if=("heights_checked", 6930000))
+
+pure("C32",
+     "differential monitor: Rune/SpacedRune print+parse, commitment and reserved test vs big-integer bijective base-26 reference; checked and release builds; Miri",
+     "Exploration: all n < 26^4+26^3, every name-length boundary ±2 up to 28 letters, all spacer masks for names of <= 12 letters, u128::MAX neighbourhood, random u128 / masks / letter strings up to 30 letters. Sampled beyond that.",
+     "Rune(n): printed name vs reference numeral, parse(print)=n, commitment vs LE bytes w/o trailing zeros, is_reserved vs n >= value(27×'A'); name strings: parse vs reference value or range error; SpacedRune: print vs reference rendering, parse(print) = (rune, spacers masked to letters-1), '.' form. distinct = (kind, letters, bit length / popcount) classes.",
+     {"evaluations": 100000, "rune_ok": 10000, "spaced_ok": 10000, "name_ok": 1000, "name_rejected_range": 100})
+
+pure("C33",
+     "exhaustive tabulation of the unlock schedule on all five networks + differential check of unlock_height against binary search over the table; checked and release builds; Miri sample",
+     "Exploration, exhaustive over heights: every height of the 210,000-block window ±50 on each network is tabulated; names: every tabulated minimum ±1 (~5×10^5 per network), length boundaries, and tens of millions of random non-reserved names. Names are sampled, not enumerated.",
+     "minimum_at_height tabulated over [start-50, start+210050] per network: non-increasing, <= first 13-letter name at the first rune block, 0 after the window (and at 2 windows, 6.93M, u32::MAX), pre-window sample; unlock_height(r) vs min{h: minimum(h)<=r} for all tabulated minima ±1, boundaries, random names. distinct = (network, unlock height) pairs seen.",
+     {"evaluations": 1000000, "heights_tabulated": 1000000, "unlock_ok": 100000},
+     shards_quick=5, shards_thorough=5, budget_quick=15, budget_thorough=120)
 
 NOT_APPLICABLE = {}
